@@ -226,7 +226,7 @@ def find_witness(prop, seed, budget):
             cmd = [os.path.join(os.path.dirname(exe), "serdiff"), "search", str(seed), str(budget), out]
         else:
             cmd = [exe, "search", k, str(seed), str(budget), out]
-        p = subprocess.run(cmd, capture_output=True, text=True, timeout=900)
+        p = subprocess.run(cmd, capture_output=True, text=True, timeout=150)
         if p.returncode == 1 and os.path.exists(out):
             return json.load(open(out)), ""
     return None, "search over generated inputs found no failing input"
